@@ -363,4 +363,3 @@ Definition alloc_bound (len : N) : N := ALLOC_K * len + ALLOC_C.
 (* 129 levels of the binary grammar + 128 of a custom-type string *)
 Definition DEPTH_LIMIT : N := 257.
 Definition depth_bound : N := DEPTH_LIMIT.
-Definition is_rejected (o : outcome) : bool := match o with OErr _ _ => true | ODone _ => false end.
